@@ -103,12 +103,16 @@ def execute(case, stats):
     runs = []
     dry_sim = None
     kw = None
+    state = None
+    if case.get("prior"):
+        state = c03.prior_call(case, dg, extra=extra)
+        stats.inc("probe.earlier_map_with_the_same_layer_objects")
     for phase in ("t1", "sched"):
         def factory():
             return c03.make_sim(case, None if phase == "t1" else dry_sim)
 
         try:
-            plot, calls, kw = c03.call_map(case, dg, factory, extra=extra)
+            plot, calls, kw = c03.call_map(case, dg, factory, extra=extra, state=state)
         except KernelError as e:
             V("kernel-exception", phase, {"error": str(e)[:300]})
             return res
